@@ -162,6 +162,8 @@ func gfTerminates(stmts []ast.Stmt) bool {
 		return true
 	case *ast.BranchStmt:
 		return s.Tok == token.BREAK || s.Tok == token.CONTINUE
+	case *ast.ExprStmt:
+		return gfIsPanic(s)
 	case *ast.BlockStmt:
 		return gfTerminates(s.List)
 	case *ast.IfStmt:
@@ -229,13 +231,14 @@ func (f *gfFn) assign(b *gfBuf, lhs ast.Expr, val string, vt *gfT) {
 		b.add("let %s : %s := %s", f.nameOf(o), t.lean(), val)
 		return
 	case *ast.SelectorExpr:
-		if id, ok := l.X.(*ast.Ident); ok && f.recv != nil && f.objOf(id) == f.recv {
+		if id, ok := l.X.(*ast.Ident); ok && (f.recv != nil && f.objOf(id) == f.recv || f.owned[f.objOf(id)]) {
+			ro := f.objOf(id)
 			sel := f.pk.info.Selections[l]
 			if sel == nil || sel.Kind() != types.FieldVal || len(sel.Index()) != 1 {
 				die("%s: assignment target outside the subset", f.at(lhs))
 			}
-			r := f.nameOf(f.recv)
-			b.add("let %s : %s := { %s with %s := %s }", r, f.varType(f.recv).lean(), r, gfLeanIdent(l.Sel.Name), val)
+			r := f.nameOf(ro)
+			b.add("let %s : %s := { %s with %s := %s }", r, f.varType(ro).lean(), r, gfLeanIdent(l.Sel.Name), val)
 			return
 		}
 	}
@@ -258,6 +261,11 @@ func (f *gfFn) valueFor(b *gfBuf, e ast.Expr, want *gfT) string {
 				return "[]"
 			}
 			die("%s: nil of this type outside the subset", f.at(e))
+		}
+	}
+	if id, ok := e.(*ast.Ident); ok && want != nil && want.k == kPtr {
+		if o := f.objOf(id); o != nil && f.owned[o] && f.override[o] != nil && f.override[o].same(want.elem) {
+			return "(some " + f.nameOf(o) + ")"
 		}
 	}
 	if want != nil && want.k == kBool {
@@ -332,6 +340,24 @@ func (f *gfFn) simple(b *gfBuf, s ast.Stmt) {
 					f.override[o] = f.typeOf(x.Rhs[0])
 				}
 			}
+			if id, ok := x.Lhs[0].(*ast.Ident); ok && x.Tok == token.DEFINE && id.Name != "_" {
+				// session 5: `p := &T{…}` / `p := new(T)` with p the only holder of the pointer (gofn_s5.go ownedPtr):
+				// p is the struct itself from here on
+				if o := f.pk.info.Defs[id]; o != nil && f.ownedPtr(o) {
+					pt := gfTypeOf(o.Type(), "variable "+o.Name())
+					if pt.k != kPtr {
+						die("%s: internal: owned pointer type", f.at(s))
+					}
+					val := pt.elem.zero()
+					if u, isU := x.Rhs[0].(*ast.UnaryExpr); isU {
+						val = f.composite(b, u.X.(*ast.CompositeLit))
+					}
+					f.override[o] = pt.elem
+					f.notes["ownedptr"] = true
+					f.assign(b, x.Lhs[0], val, pt.elem)
+					return
+				}
+			}
 			t := f.lhsType(x.Lhs[0])
 			f.assign(b, x.Lhs[0], f.valueFor(b, x.Rhs[0], t), t)
 		default: // op=
@@ -368,6 +394,9 @@ func (f *gfFn) commaOk(b *gfBuf, x *ast.AssignStmt) {
 		}
 	}
 	if c, ok := x.Rhs[0].(*ast.CallExpr); ok {
+		if f.commaOkS5(b, x, c) {
+			return
+		}
 		if cal := f.callee(c); cal != nil && len(cal.results) == 2 {
 			var args []string
 			for _, a := range c.Args {
@@ -572,6 +601,22 @@ func (f *gfFn) seq(b *gfBuf, stmts []ast.Stmt, c *gfCtx, k func()) {
 	case *ast.ForStmt, *ast.RangeStmt:
 		f.loop(b, s, c, next)
 	default:
+		if f.isPanicStmt(s) {
+			// panic(v): v is evaluated (a panicking argument is a panic too), then the function ends without a
+			// value; the statements after it are dead code
+			for _, a := range s.(*ast.ExprStmt).X.(*ast.CallExpr).Args {
+				if sel, ok := a.(*ast.SelectorExpr); ok {
+					if id, ok := sel.X.(*ast.Ident); ok && f.pkgOf(id) != "" {
+						continue // a package-level value of another package (io.EOF): a read without effect
+					}
+				}
+				if f.constOf(a) == nil {
+					f.expr(b, a)
+				}
+			}
+			b.add("none")
+			return
+		}
 		f.simple(b, s)
 		next()
 	}
@@ -864,6 +909,10 @@ func (f *gfFn) loop(b *gfBuf, s ast.Stmt, c *gfCtx, next func()) {
 			}
 			f.checkAsciiRange(x, vobj)
 			f.override[vobj] = &gfT{k: kU8}
+			if f.ascii == nil {
+				f.ascii = map[types.Object]bool{}
+			}
+			f.ascii[vobj] = true
 			f.notes["asciirange"] = true
 		}
 		if id, ok := x.Key.(*ast.Ident); ok && id.Name != "_" {
@@ -1132,6 +1181,7 @@ func (f *gfFn) translate() string {
 	}) {
 		die("%s: go / defer / select / send / label / type switch outside the subset", f.leanName)
 	}
+	f.checkPanicNotShadowed()
 	b := &gfBuf{ind: 1}
 	f.seq(b, f.decl.Body.List, &gfCtx{}, func() {
 		if len(f.results) > 0 {
